@@ -145,7 +145,8 @@ Definition get_instance (h : hs) (round : tok) (create_missing : bool) : res ins
       | LoadPanic => RPanic
       end
   | None =>
-      if create_missing then
+      if N.eqb round 0 then RErr h          (* state_machines.Create refuses an empty identifier *)
+      else if create_missing then
         (* not persisted here: the callers' SaveFSM does it once the message is accepted *)
         match create with
         | LoadOk i => ROk h i
